@@ -109,7 +109,15 @@ static int _GD_DeReferenceOne(DIRFILE *restrict D, gd_entry_t *restrict E,
     repr = _GD_GetRepr(E->scalar[i], &len);
 
     if (len == C->e->len && memcmp(C->field, E->scalar[i], len) == 0) {
-      if (check) {
+      if (check == 2) {
+        /* the client is going to be rewritten: its fragment must allow it */
+        if (D->fragment[E->fragment_index].protection & GD_PROTECT_FORMAT) {
+          _GD_SetError(D, GD_E_PROTECTED, GD_E_PROTECTED_FORMAT, NULL, 0,
+              D->fragment[E->fragment_index].cname);
+          dreturn("%i", 1);
+          return 1;
+        }
+      } else if (check) {
         _GD_SetError(D, GD_E_DELETE, GD_E_DEL_CONST, E->field, 0, C->field);
 
         dreturn("%i", 1);
@@ -269,6 +277,22 @@ static void _GD_Delete(DIRFILE *restrict D, gd_entry_t *restrict E,
 
   for (i = 0; i < E->e->n_meta; ++i)
     del_list[n_del++] = E->e->p.meta_entry[i];
+
+  /* GD_DEL_DEREF rewrites the clients of a scalar: check their fragments */
+  if (flags & GD_DEL_DEREF)
+    for (j = 0; j < D->n_entries && !D->error; ++j)
+      for (i = 0; i < n_del && !D->error; ++i)
+        if (del_list[i]->field_type == GD_CONST_ENTRY ||
+            del_list[i]->field_type == GD_CARRAY_ENTRY)
+        {
+          _GD_DeReference(D, D->entry[j], del_list[i], 2);
+        }
+
+  if (D->error) {
+    free(del_list);
+    dreturnvoid();
+    return;
+  }
 
   /* Check for clients, derived fields, and inbound aliases */
   if (~flags & GD_DEL_FORCE)
